@@ -1011,3 +1011,58 @@ def r8_6_password_taint(ctx, prog, rule="R8.6"):
                     if "password" in names:
                         tgt.add(C.short(c.callee_path))
     ctx.ob(rule, "client-new", True, "StunClient::new passes params.password to %s" % sorted(tgt), b.where())
+
+
+def r8_8_lt_end_to_end(ctx, prog, rule="R8.8"):
+    """thorough: one-shot exploration of LongTermCredentialClient::recv_message with every callee of the
+    mechanism stepped into (about 50k paths): end-to-end statements that the compositional rules imply."""
+    ctx.rule(rule, "end to end (one-shot exploration of recv_message, all mechanism functions stepped into): Ok only after a "
+                   "verifying MAC under the cached / derived key; Retry only for 401 / 438 error responses; Discarded paths "
+                   "write nothing but the violated marker; the state becomes SubsequentRequest only on Ok")
+    models = lt_iter_models(prog) + lt_models()
+    body = prog.body(LT + "::recv_message")
+    it = Interp(prog, compile_models(list(models)), step_only=list(STEP_LT), max_paths=20000000)
+    st = State()
+    st.heap["lt"] = it.materialize(LT, "lt")
+    st.heap["raw_buffer"] = Top("raw_buffer")
+    st.heap["msg"] = it.materialize("stun_rs::message::StunMessage", "msg")
+    outs = it.run(body, [Ref("lt", (), True), Ref("raw_buffer"), Ref("msg")], st)
+    paths = [C.Path(it, o) for o in outs]
+    ctx.fn(body)
+    for p in it.stepped:
+        ctx.functions.add(p)
+    if it.bounded:
+        ctx.violation(rule, "bounded", "loop bound hit", body.where())
+    seen = {}
+    for pa in paths:
+        ret = _ret_str(pa.ret)
+        d = lt_desc(pa)
+        w = _lt_writes(pa)
+        mac = d["mac"]
+        v = pa.calls_to(r"validate_message_integrity$")
+        bad = []
+        if ret == "Ok":
+            if not v or mac != 1:
+                bad.append("accepted without a verifying MAC")
+            elif "lt.params" not in repr(v[-1][2][1]) and "create_long_term_auth_attrs" not in repr(C.expr_of(pa, v[-1][2][1])) and "new_long_term" not in repr(C.expr_of(pa, v[-1][2][1])):
+                bad.append("verified under %s" % repr(v[-1][2][1])[:80])
+            if d["cls"] not in ("SuccessResponse", "ErrorResponse"):
+                bad.append("class %s accepted" % d["cls"])
+            if any(t not in ("state",) for t, _x in w):
+                bad.append("Ok path writes %s" % [t for t, _x in w])
+        elif ret == "Err(Retry)":
+            if d["cls"] != "ErrorResponse" or d["code"] not in ("401", "438"):
+                bad.append("Retry for cls=%s code=%s" % (d["cls"], d["code"]))
+        elif ret == "Err(Discarded)":
+            if w:
+                bad.append("Discarded path writes %s" % [t for t, _x in w])
+        if any(t == "state" and x == "LongTermCredentialState::SubsequentRequest" for t, x in w) and ret != "Ok":
+            bad.append("state := SubsequentRequest on %s" % ret)
+        key = "cls=%s,code=%s,params=%s,ret=%s,mac=%s" % (d["cls"], d["code"], d["params"], ret, mac)
+        ok = not bad
+        if key not in seen or not ok:
+            seen[key] = (ok, "; ".join(bad) or "ok", pa)
+    for key, (ok, why, pa) in sorted(seen.items()):
+        ctx.ob(rule, key, ok, why, body.where(), replay=None if ok else pa.describe())
+    ctx.floor(rule, "end-to-end classes", len(seen), 20)
+    ctx.extra["lt_full_paths"] = len(paths)
